@@ -1329,6 +1329,7 @@ func (t *Tokenizer) readPunctuation() (models.Token, error) {
 				commentStartPos := t.toSQLPosition(Position{Index: commentStartIdx})
 				t.pos.AdvanceRune(nxtR, nxtSize)
 				// Skip until */ or EOF
+				closed := false
 				for t.pos.Index < len(t.input) {
 					cr, csize := utf8.DecodeRune(t.input[t.pos.Index:])
 					if cr == '*' {
@@ -1337,12 +1338,20 @@ func (t *Tokenizer) readPunctuation() (models.Token, error) {
 							nr, ns := utf8.DecodeRune(t.input[t.pos.Index:])
 							if nr == '/' {
 								t.pos.AdvanceRune(nr, ns) // End of block comment
+								closed = true
 								break
 							}
 						}
 					} else {
 						t.pos.AdvanceRune(cr, csize)
 					}
+				}
+				if !closed {
+					return models.Token{}, errors.NewError(
+						errors.ErrCodeUnterminatedString,
+						"unterminated block comment",
+						commentStartPos,
+					).WithContext(string(t.input), 2)
 				}
 				t.Comments = append(t.Comments, models.Comment{
 					Text:   string(t.input[commentStartIdx:t.pos.Index]),
